@@ -1,4 +1,6 @@
 import LicenseExpr.Lemmas.WF
+import LicenseExpr.Lemmas.RenderText
+import LicenseExpr.Props.C18
 import LicenseExpr.Lemmas.Order
 import LicenseExpr.Model.Api
 /-!
@@ -9,9 +11,16 @@ license, the operator tokens, parentheses round every operand that is not a lite
 `p` says so — round a literal (the readable rendering does that for WITH pairs).
 `C05_render_is_skeleton` / `C05_template` / `C05_readable_is_skeleton` say that the three renderings
 of the source are the texts of these skeletons; `C05_tokens` / `C05_readable_tokens` say that the
-skeletons parse back to the tree. What is not proved is the text level in between (that the
-tokenizer turns the text of a skeleton back into the skeleton, for operator-word-free tables): it is
-covered by the correspondence run, and stated as `C05_text_statement`.
+skeletons parse back to the tree.
+
+Text level. `C05_text_simple`: for *every* table, rendering an expression and parsing the text with
+the simple tokenizer gives the expression back — same structure, operand order and symbols — provided
+each of its licenses is read back from its key (`AtomOK`: the key is one word and the simple
+tokenizer's look-up of that word gives the license: a known key of the table with its flag, or an
+unknown valid key). `C05_text_default`: the same with the default tokenizer for tables without
+aliases whose keys are single words (the ScanCode table is of this kind), through C18. `C05_fixpoint`:
+the rendering of the re-parsed expression is the same text again. For tables with multi-word names
+and aliases the text level is covered by the correspondence run.
 -/
 namespace LE
 
@@ -50,6 +59,38 @@ theorem C05_readable_is_skeleton (tmpl : Sym → Str) (op : Op) (es : List (Expr
   unfold renderReadable
   exact BP.renderWith_detok (Atom.renderT tmpl false) isWithAtom (Atom.renderT tmpl true)
     (by intro a; cases a <;> simp [Atom.renderT, isWithAtom]) op es
+
+/-- **C05 (text, simple tokenizer)**: rendering any expression whose nodes have at least two operands
+    and parsing that text gives an expression of identical structure, operand order and symbols —
+    for every table, with the simple tokenizer, when each license is read back from its key. -/
+theorem C05_text_simple (c : Cls) (hc : ClsOK c) (T : Table) (e : Expr Atom) (hwf : BP.WFE e)
+    (ha : ∀ a ∈ literals e, AtomOK c T a) : parseFull c T true false false (renderStr e) = .ok e :=
+  parse_render_simple c hc T e hwf ha
+
+/-- **C05 (text, default tokenizer)**: the same with the default tokenizer, for tables without aliases
+    whose keys are single words. -/
+theorem C05_text_default (c : Cls) (hc : ClsOK c) (T : Table) (hT : SpaceFreeT c T) (e : Expr Atom) (hwf : BP.WFE e)
+    (ha : ∀ a ∈ literals e, AtomOK c T a) : parseFull c T false false false (renderStr e) = .ok e :=
+  parse_render_default c hc T hT e hwf ha
+
+/-- **C05 (fixed point)**: … whose rendering is the same text again. -/
+theorem C05_fixpoint (c : Cls) (hc : ClsOK c) (T : Table) (hT : SpaceFreeT c T) (e : Expr Atom) (hwf : BP.WFE e)
+    (ha : ∀ a ∈ literals e, AtomOK c T a) (e' : Expr Atom)
+    (h : parseFull c T false false false (renderStr e) = .ok e') : renderStr e' = renderStr e := by
+  rw [C05_text_default c hc T hT e hwf ha] at h
+  cases h; rfl
+
+/-- the premises are satisfiable: over ASCII, the table {mit, GPL[exception]}, the expression
+    `mit AND (foo OR mit WITH GPL)` with the unknown license `foo` -/
+example : (∀ a ∈ literals (Expr.node .and [.atom (.lic ⟨[109, 105, 116], false⟩),
+      .node .or [.atom (.lic ⟨[102, 111, 111], false⟩), .atom (.withE ⟨[109, 105, 116], false⟩ ⟨[71, 80, 76], true⟩)]]),
+    AtomOK asciiCls [⟨[109, 105, 116], [], false⟩, ⟨[71, 80, 76], [], true⟩] a) := by
+  intro a ha
+  simp [literals] at ha
+  rcases ha with rfl | rfl | rfl
+  · exact ⟨⟨by decide, by decide⟩, rfl⟩
+  · exact ⟨⟨by decide, by decide⟩, rfl⟩
+  · exact ⟨⟨⟨by decide, by decide⟩, rfl⟩, ⟨⟨by decide, by decide⟩, rfl⟩⟩
 
 /-- non-vacuity: `a OR (b OR c)` keeps its nesting through the skeleton -/
 example : BP.parse (BP.toksOf (fun _ => false) (Expr.node .or [.atom 1, .node .or [.atom 2, .atom 3]]))
